@@ -237,7 +237,16 @@ func mainC07() {
 	for i := 0; i < r.N(3, 30); i++ {
 		runOp(r, fmt.Sprintf("e2e %d", r.Rng.U64()%100000))
 	}
-	for _, op := range []string{"perm label=-|70|74 env=61:62,61:63", "rehash label=-|70", "perm", "e2e x", "e2e 1 2"} {
+	// package level: what is reported for a target must not depend on what else the invocation parsed (c07cfg.go);
+	// the first three cover the shapes (2/3 build_defs files, with/without the slow subinclude, joint/separate calls)
+	for i := 0; i < r.N(3, 12); i++ {
+		nd, slow, joint := 2+i%2, 1, 1-(i/2)%2
+		if i%3 == 2 {
+			slow = 0
+		}
+		runOp(r, fmt.Sprintf("e2ecfg %d %d %d %d", r.Rng.U64()%100000, nd, slow, joint))
+	}
+	for _, op := range []string{"perm label=-|70|74 env=61:62,61:63", "rehash label=-|70", "perm", "e2e x", "e2e 1 2", "e2ecfg 1", "e2ecfg 1 4 0 0", "e2ecfg 1 2 2 0", "e2ecfg 01 2 1 0"} {
 		runOp(r, op)
 		r.Count("malformed")
 	}
